@@ -88,11 +88,46 @@ def intake(src, name):
     return True
 
 
+def intake_neutral(src, name):
+    """A behaviour-preserving change: must apply, build (both tags) and pass the suite."""
+    meta = json.load(open(os.path.join(src, "meta.json")))
+    wt = worktree("intake-" + name)
+    res, ran = {}, []
+    try:
+        r = sh(["git", "apply", os.path.join(src, "patch.diff")], cwd=wt)
+        res["patch_applies"] = r.returncode == 0
+        if r.returncode == 0:
+            r = sh(["go", "build", "./..."], cwd=wt, env=goenv())
+            r2 = sh(["go", "build", "-tags", "verif", "./..."], cwd=wt, env=goenv())
+            res["builds"] = r.returncode == 0 and r2.returncode == 0
+            r = sh(["go", "test", "-vet=off", "-count=1", "./..."], cwd=wt, env=goenv())
+            res["suite_passes_with_change"] = r.returncode == 0
+            ran = ["git apply patch.diff", "go build ./... (with and without -tags verif)", "go test -vet=off -count=1 ./..."]
+    finally:
+        drop(wt)
+    ok = all(res.get(k) for k in ("patch_applies", "builds", "suite_passes_with_change"))
+    print(name, "ACCEPTED" if ok else "REJECTED", res)
+    if not ok:
+        return False
+    dst = os.path.join(VERIF, SEEDDIR, name)
+    os.makedirs(dst, exist_ok=True)
+    shutil.copy(os.path.join(src, "patch.diff"), os.path.join(dst, "patch.diff"))
+    out = {"property": None, "kind": "behaviour-preserving change (must NOT be flagged)", "summary": meta.get("summary"),
+           "why_behaviour_preserving": meta.get("why_behaviour_preserving"),
+           "what_unconstrained_behaviour_changes": meta.get("what_unconstrained_behaviour_changes"),
+           "author": "independent sub-agent (saw the property texts and a scratch worktree only)", "confirmed_by_me": res, "what_i_ran": ran}
+    json.dump(out, open(os.path.join(dst, "meta.json"), "w"), indent=1)
+    return True
+
+
+SEEDDIR = "seeded"
+
+
 def run(names, budget, props):
-    names = names or sorted(os.listdir(os.path.join(VERIF, "seeded")))
+    names = names or sorted(os.listdir(os.path.join(VERIF, SEEDDIR)))
     table = {}
     for name in names:
-        d = os.path.join(VERIF, "seeded", name)
+        d = os.path.join(VERIF, SEEDDIR, name)
         if not os.path.isfile(os.path.join(d, "patch.diff")):
             continue
         wt = worktree("run-" + name)
@@ -137,8 +172,14 @@ if __name__ == "__main__":
     if "--owner-only" in a:
         OWNER_ONLY = True
         a.remove("--owner-only")
+    if "--dir" in a:
+        i = a.index("--dir")
+        SEEDDIR = a[i + 1]
+        del a[i:i + 2]
     if a[0] == "intake":
         sys.exit(0 if intake(a[1], a[2]) else 1)
+    if a[0] == "intake-neutral":
+        sys.exit(0 if intake_neutral(a[1], a[2]) else 1)
     budget, props, names = 10, PROPS, []
     i = 1
     while i < len(a):
